@@ -51,7 +51,7 @@ func c09EncodeLaw[T any](v T) []byte {
 }
 
 //verif:opt maxpaths=3000 reach=accepted,rejected
-func Harness_C09_B_decode() { c09DecodeLaw[c09B](6 + vChoice("len", 7)) }
+func Harness_C09_B_decode() { c09DecodeLaw[c09B](6 + vChoice("len", 7+2*vTier())) }
 
 //verif:opt maxpaths=3000 reach=encoded,refused
 func Harness_C09_B_encode() {
@@ -74,7 +74,7 @@ func Harness_C09_B_encode() {
 }
 
 //verif:opt maxpaths=3000 reach=accepted,rejected
-func Harness_C09_C_decode() { c09DecodeLaw[c09C](9 + vChoice("len", 6)) }
+func Harness_C09_C_decode() { c09DecodeLaw[c09C](9 + vChoice("len", 6+2*vTier())) }
 
 //verif:opt maxpaths=3000 reach=encoded,refused
 func Harness_C09_C_encode() {
@@ -105,7 +105,7 @@ func Harness_C09_C_encode() {
 }
 
 //verif:opt maxpaths=3000 reach=accepted,rejected
-func Harness_C09_D_decode() { c09DecodeLaw[c09D](3 + vChoice("len", 8)) }
+func Harness_C09_D_decode() { c09DecodeLaw[c09D](3 + vChoice("len", 8+2*vTier())) }
 
 //verif:opt maxpaths=3000 reach=encoded
 func Harness_C09_D_encode() {
@@ -136,7 +136,7 @@ type c09E struct {
 }
 
 //verif:opt maxpaths=3000 reach=accepted,rejected
-func Harness_C09_E_decode() { c09DecodeLaw[c09E](13 + vChoice("len", 4)) }
+func Harness_C09_E_decode() { c09DecodeLaw[c09E](13 + vChoice("len", 4+2*vTier())) }
 
 //verif:opt maxpaths=3000 reach=encoded,refused
 func Harness_C09_E_encode() {
@@ -163,7 +163,7 @@ type c09F struct {
 }
 
 //verif:opt maxpaths=4000 reach=accepted,rejected
-func Harness_C09_F_decode() { c09DecodeLaw[c09F](13 + vChoice("len", 3)) }
+func Harness_C09_F_decode() { c09DecodeLaw[c09F](13 + vChoice("len", 3+2*vTier())) }
 
 //verif:opt maxpaths=3000 reach=encoded,refused
 func Harness_C09_F_encode() {
@@ -193,7 +193,7 @@ type c09G struct {
 }
 
 //verif:opt maxpaths=4000 reach=accepted,rejected
-func Harness_C09_G_decode() { c09DecodeLaw[c09G](5 + vChoice("len", 7)) }
+func Harness_C09_G_decode() { c09DecodeLaw[c09G](5 + vChoice("len", 7+2*vTier())) }
 
 // Vectors whose declared maximum is far larger than any input: the decoder must check the
 // length prefix against the remaining input before allocating.
@@ -203,4 +203,4 @@ type c09H struct {
 }
 
 //verif:opt maxpaths=4000 reach=accepted,rejected
-func Harness_C09_H_decode() { c09DecodeLaw[c09H](6 + vChoice("len", 6)) }
+func Harness_C09_H_decode() { c09DecodeLaw[c09H](6 + vChoice("len", 6+2*vTier())) }
